@@ -50,6 +50,7 @@ class Case:
     def __init__(self, kind, ident, inputs, build, want_lines, numpy_ref, concrete):
         self.kind, self.ident, self.inputs, self.build = kind, ident, inputs, build
         self.want_lines, self.numpy_ref, self.concrete = want_lines, numpy_ref, concrete
+        self.loose = False
 
 
 def _setitem_index(rng, shape):
@@ -65,7 +66,7 @@ def gen_cases(rng: random.Random, n: int, styles, kinds=None):
     from .props import c08
     out = []
     for k in range(n):
-        pool = list(kinds) if kinds else ["mask", "nonzero", "setitem", "setitem", "setitem_mask", "intindex"]
+        pool = list(kinds) if kinds else ["mask", "nonzero", "setitem", "setitem", "setitem_mask", "intindex", "cumsum"]
         kind = pool[k % len(pool)]
         rank = rng.choice([1, 1, 2, 2, 3])
         shape = tuple(rng.choice([1, 2, 3, 4]) for _ in range(rank))
@@ -84,6 +85,36 @@ def gen_cases(rng: random.Random, n: int, styles, kinds=None):
                 return {"x": _data(rng, sh, dtype), "m": _data(rng, sh[:rank_m], "bool")}
             out.append(Case(kind, (kind, rank, rank_m, style, dtype), ["x", "m"], build,
                             {"y": f"tg_render mask {rank_m}"}, ref, (concrete, shape, style)))
+        elif kind == "cumsum":
+            acc = rng.choice([None, None, None] + INT_DTYPES[:-1])
+            axis = rng.randrange(-rank, rank)
+            incl = rng.random() < 0.25
+            dt = rng.choice(INT_DTYPES[:-1])
+            kw = {"axis": axis}
+            if acc:
+                kw["dtype"] = impl.dt(acc)
+            if incl:
+                kw["include_initial"] = True
+            def build(dims=dims, dt=dt, kw=kw):
+                x = ndx.array(shape=dims, dtype=impl.dt(dt))
+                return {"x": x}, {"y": ndx.cumulative_sum(x, **kw)}
+            def ref(feeds, axis=axis, acc=acc, incl=incl, dt=dt):
+                x = feeds["x"]
+                rdt = np.dtype(acc) if acc else (np.uint64 if np.dtype(dt).kind == "u" else np.int64)
+                with np.errstate(all="ignore"):
+                    r = np.cumsum(x.astype(rdt), axis=axis, dtype=rdt)
+                if incl:
+                    z = list(r.shape); z[axis] = 1
+                    r = np.concatenate([np.zeros(z, dtype=rdt), r], axis=axis)
+                return {"y": r}
+            def concrete(rng, sh, dt=dt):
+                info = np.iinfo(np.dtype(dt))
+                vals = [rng.choice([0, 1, 2, 3, -1, -5, 7, 100, int(info.max), int(info.min), int(info.max) - 1]) for _ in range(int(np.prod(sh)))]
+                return {"x": np.array([min(int(info.max), max(int(info.min), v)) for v in vals], dtype=dt).reshape(sh)}
+            out.append(Case(kind, (kind, rank, axis, acc, incl, style, dt), ["x"], build,
+                            {"y": f"tg_render cumsum {CODE[dt]} {axis} {CODE[acc] if acc else '~'}"},
+                            ref, (concrete, shape, style)))
+            out[-1].loose = incl        # include_initial: the model term covers the running sum only; acceptance and values are compared
         elif kind == "intindex":
             idt = rng.choice(INT_DTYPES[:-1])
             ishape = rng.choice([(), (0,), (1,), (3,), (2, 2)])
@@ -183,16 +214,21 @@ def _search(ctx, c, model, outs, rng, why):
 def run(ctx, n: int, styles=("static", "symbolic", "none"), label="scatter", kinds=None):
     rng = random.Random(f"scattertie/{label}/{ctx.seed}")
     cases = gen_cases(rng, n, styles, kinds)
-    lines = [l for c in cases for l in c.want_lines.values()]
+    lines = [l for c in cases for l in c.want_lines.values() if l is not None]
     answers = iter(common.model(lines))
     eval_lines, eval_meta = [], []
     matched = 0
     for c in cases:
-        want = {name: next(answers) for name in c.want_lines}
+        want = {name: (next(answers) if l is not None else None) for name, l in c.want_lines.items()}
         try:
             ins, outs = c.build()
             model = ndx.build(ins, outs)
         except Exception as e:
+            if all(w is not None and w.startswith("err") for w in want.values()):
+                ctx.case((label,) + c.ident + ("raises",), True)
+                ctx.count(f"tgraph-{label}:{c.kind}-rejected-as-modelled")
+                matched += 1
+                continue
             ctx.corr_broken(f"tgraph-term/{c.kind}", {"case": repr(c.ident), "impl": f"raised {type(e).__name__}: {str(e)[:200]}", "model": list(want.values())[0][:300]})
             continue
         mapping = {name: f"in{i}" for i, name in enumerate(c.inputs)}
@@ -207,7 +243,7 @@ def run(ctx, n: int, styles=("static", "symbolic", "none"), label="scatter", kin
             ctx.case((label,) + c.ident + (name,), True,
                      {"case": repr(c.ident), "exported": got[:300]} if len(ctx.samples) < 10 else None)
             ctx.count(f"tgraph-{label}:{c.kind}")
-            if got != w:
+            if (w.startswith("err") or got != w) if not c.loose else w.startswith("err"):
                 ok = False
                 ctx.corr_broken(f"tgraph-term/{c.kind}", {"case": repr(c.ident), "output": name, "exported": got[:900], "model": w[:900]})
         if not ok:
